@@ -163,6 +163,18 @@ def unquote(
     return q
 
 
+# NOTE: every byte but the ascii letters
+EVERYTHING_BUT_LETTERS = bytes(
+    bytearray(i for i in range(256) if not (65 <= i <= 90 or 97 <= i <= 122))
+)
+
+
+def unquote_letters(string):
+    # NOTE: an escaped letter is a letter too ("%75rl" is "url", "%49ndex.html"
+    # is "Index.html"), and unquoting those never changes what a url means
+    return unquote(string, unsafe=EVERYTHING_BUT_LETTERS)
+
+
 # NOTE: to safely unquote we don't need to replace invalid character because it would
 # imply that the parsed url was invalid from the start (except for spaces)
 
